@@ -66,7 +66,7 @@ harmless (by the rules of the task); known instances are listed per property bel
 
 TAIL = """
 
-**Defect found by this round.** BE (C14): `enumerate_changes` accumulated |Δlevel| truncated to int, so the weighted-median cn
+**Defects found by this round.** BF, BG (C10): see 9.3 — `reference --cluster` still depended on the global RNG state through sklearn's PCA (fix bc7a16a); `do_segmentation` on an empty table returned and reordered the caller's table (fix 25951a5). BE (C14): `enumerate_changes` accumulated |Δlevel| truncated to int, so the weighted-median cn
 5.5 that `ampdel` leaves for a run of cn 5 and 6 was merged by a following `cn` filter with a cn-5 segment across the neutral
 segment `ampdel` had dropped (chr1 rows cn 5, 6, 2, 5, filters `[ampdel, cn]` → one row 0–40). Reproduced on /repo, repaired by
 `fix:` 31bc163 (count the changes, as the docstring says), 61/61 baseline tests pass, witness in the C14 corpus.
